@@ -95,6 +95,13 @@ pub enum N {
         id: u32,
         sig: u8,
     },
+    /// a pipeline whose last command exits without reading what the first one
+    /// (more than a pipe holds) writes: `gen N 1 512 0 0 | { echo W; rc S; }`
+    EarlyExitPipe {
+        n: u32,
+        status: u8,
+        word: String,
+    },
     /// an asynchronous and-or list:
     /// `: >out; rc S && echo W >>out & p=$!; wait $p; echo "?=$?"; cat out`
     BgAndOr {
@@ -250,6 +257,15 @@ impl Gen<'_> {
                     if self.rng.below(3) == 0 {
                         out.push(N::Qm);
                     }
+                }
+                82 if depth < 3 && self.rng.bool() => {
+                    let word = self.word();
+                    out.push(N::EarlyExitPipe {
+                        n: *self.rng.pick(&[1025u32, 1537, 3000, 5000]),
+                        status: *self.rng.pick(&[0u8, 0, 3]),
+                        word,
+                    });
+                    out.push(N::Qm);
                 }
                 82 if depth < 3 => {
                     let word = self.word();
@@ -571,6 +587,7 @@ fn render(n: &N, out: &mut String, _sep: &str) {
         )),
         N::Call(f) => out.push_str(&format!("f{f}")),
         N::Kp => out.push_str("kill -s USR1 $$"),
+        N::EarlyExitPipe { n, status, word } => out.push_str(&format!("gen {n} 1 512 0 0 | {{ echo {word}; rc {status}; }}")),
         N::BgAndOr { id, first, word } => out.push_str(&format!(
             ": >out_{id}; rc {first} && echo {word} >>out_{id} & p_{id}=$!; wait $p_{id}; echo \"?=$?\"; cat out_{id}"
         )),
@@ -787,6 +804,11 @@ fn eval(n: &N, cx: &mut Ctx) {
         N::Orphan { word, .. } => {
             cx.out.push(word.clone());
             cx.status = 0;
+        }
+        N::EarlyExitPipe { status, word, .. } => {
+            cx.out.push(word.clone());
+            // the writer cannot finish: it fails (status 1) once the reader is gone
+            cx.status = if *status != 0 { *status as u32 } else if cx.pipefail { 1 } else { 0 };
         }
         N::BgAndOr { first, word, .. } => {
             cx.out.push(format!("?={first}"));
